@@ -15,7 +15,8 @@ Proof. exact run_refines. Qed.
 Print Assumptions c17_refines.
 
 (* The same for run_case, the function the correspondence check executes on every generated case: for EVERY list of
-   integers with a kind in 0..3 and a capacity >= 0 (decode_ops only produces operations that satisfy ok_op). *)
+   integers with a kind in 0..3 and a capacity >= 0 (decode_xops only produces operations that satisfy ok_xop); cases may
+   contain appends from the builder's own text (op 9, see c17_refines_self below). *)
 Theorem c17_refines_cases : forall k cap r, 0 <= k <= 3 -> 0 <= cap ->
   run_case (k :: cap :: r) = arun_case (k :: cap :: r).
 Proof. exact run_case_refines. Qed.
@@ -82,6 +83,67 @@ Theorem c17_number_text : forall u p, 0 <= u < two64 ->
 Proof. exact ProofsNum.num_text_piece. Qed.
 Print Assumptions c17_number_text.
 
+(* ---- appends whose SOURCE is the builder's own current text (aliasing) ----
+   sb.append(sb.c_str() + off, n), sb.append(sb.toSpan().first + off, n), sb.append(sb.c_str() + off): Model.xop /
+   Model.resolve give them VALUE semantics - the appended bytes are the slice of the text the builder reports when the
+   call is made.  Histories over xop (plain operations and self-appends mixed) refine the abstract builder ... *)
+Theorem c17_refines_self : forall k cap ini xs, 0 <= k <= 3 -> 0 <= cap -> Forall ok_xop xs ->
+  run_x k cap ini xs = arun_x k cap ini xs.
+Proof. exact run_x_refines. Qed.
+Print Assumptions c17_refines_self.
+
+(* ... and reach nothing new: every such history has the records and the final state of a history of plain operations,
+   so every theorem above about `reach k cap ini ops` speaks about the states reached with self-appends as well. *)
+Theorem c17_self_histories : forall k cap ini xs, Forall ok_xop xs ->
+  exists ops, Forall ok_op ops /\ run_x k cap ini xs = run k cap ini ops /\ reach_x k cap ini xs = reach k cap ini ops.
+Proof. exact self_histories. Qed.
+Print Assumptions c17_self_histories.
+
+(* Self-append of the slice [off, off+n) of the current text, in EVERY reachable state of EVERY builder kind (inline,
+   caller's std::string, fixed array, spilling array, before and after a spill), for all off and n (clamped to the text;
+   inside the text the slice has exactly n bytes): no exception, no Fault, the text becomes text ++ slice - on a fixed array
+   text ++ the longest prefix of the slice that fits, with ERANGE iff something was cut - and the result is
+   indistinguishable (exception, text, size, errno flag, Fault) from ANY foreign append-like operation (bytes, C string,
+   run, number, format) that contributes the same bytes: exactly the truncation rules of c17_fixed / c17_never_truncates. *)
+Theorem c17_self_append : forall k cap ini ops off n, 0 <= k <= 3 -> 0 <= cap -> Forall ok_op ops ->
+  let s := reach k cap ini ops in
+  let d := slice (c_text s) off n in
+  let s' := snd (step s (resolve s (XSelf off n))) in
+  let room := limit_of cap - c_size s in
+  (0 <= off -> 0 <= n -> off + n <= c_size s -> len d = n) /\
+  fst (step s (resolve s (XSelf off n))) = 0 /\ fault s' = false /\
+  c_text s' = c_text s ++ (if k =? 2 then zfirstn room d else d) /\
+  (erange s' = true <-> k = 2 /\ room < len d) /\
+  (k = 2 -> 0 <= room /\ c_size s' <= limit_of cap) /\
+  (k <> 2 -> max_size s' = -1) /\
+  (forall o, ok_op o -> is_append o = true -> piece o = d ->
+     let t := snd (step s o) in
+     fst (step s o) = 0 /\ c_text t = c_text s' /\ c_size t = c_size s' /\ erange t = erange s' /\ fault t = false).
+Proof.
+  intros k cap ini ops off n Hk Hc Hok. cbv zeta. split.
+  - intros H1 H2 H3. apply len_slice; try assumption.
+    destruct (reported k cap ini ops Hk Hc Hok) as (_ & V2 & V3 & _). rewrite V2, <- V3. exact H3.
+  - exact (self_append k cap ini ops (XSelf off n) Hk Hc Hok I).
+Qed.
+Print Assumptions c17_self_append.
+
+(* the C-string flavour sb.append(sb.c_str() + off): the piece is the text from off up to its first NUL byte *)
+Theorem c17_self_append_cstr : forall k cap ini ops off, 0 <= k <= 3 -> 0 <= cap -> Forall ok_op ops ->
+  let s := reach k cap ini ops in
+  let d := cut0 (suffix (c_text s) off) in
+  let s' := snd (step s (resolve s (XSelfC off))) in
+  let room := limit_of cap - c_size s in
+  fst (step s (resolve s (XSelfC off))) = 0 /\ fault s' = false /\
+  c_text s' = c_text s ++ (if k =? 2 then zfirstn room d else d) /\
+  (erange s' = true <-> k = 2 /\ room < len d) /\
+  (k = 2 -> 0 <= room /\ c_size s' <= limit_of cap) /\
+  (k <> 2 -> max_size s' = -1) /\
+  (forall o, ok_op o -> is_append o = true -> piece o = d ->
+     let t := snd (step s o) in
+     fst (step s o) = 0 /\ c_text t = c_text s' /\ c_size t = c_size s' /\ erange t = erange s' /\ fault t = false).
+Proof. intros k cap ini ops off Hk Hc Hok. exact (self_append k cap ini ops (XSelfC off) Hk Hc Hok I). Qed.
+Print Assumptions c17_self_append_cstr.
+
 (* ---- non-vacuity and boundaries (computed) ---- *)
 Definition az (n : Z) : list Z := zrepeat 97 n.
 Definition ops_ok_b (ops : list op) : bool :=
@@ -133,3 +195,30 @@ Proof. vm_compute. reflexivity. Qed.
 Example c17_boundary_huge_run : last_state 2 8 [] [OBytes [97;98]; OFill 18446744073709551615 120] = (7, 0, 128, 1, 0).
 Proof. vm_compute. reflexivity. Qed.
 Print Assumptions c17_boundary_sbo_format_exact.
+
+(* self-appends at the representation boundaries: an inline builder holding 32 chars appends its whole text (64 > 63: it
+   spills while the source is its own inline buffer); 31 chars stay inline (62); a caller's std::string of 15 / 16 chars
+   doubles; a spilling array of 8 cells with 5 chars spills; a fixed array of 8 cells keeps "abcde" ++ "ab" with ERANGE *)
+Definition self_state k cap ini xs := let s := reach_x k cap ini xs in (c_text s, c_term s, tag s, b2z (erange s), b2z (fault s)).
+Example c17_self_sbo_spill : self_state 0 0 [] [XOp (OBytes (az 31 ++ [98])); XSelf 0 32] = (az 31 ++ [98] ++ az 31 ++ [98], 0, 65, 0, 0).
+Proof. vm_compute. reflexivity. Qed.
+Example c17_self_sbo_inline : self_state 0 0 [] [XOp (OBytes (az 30 ++ [98])); XSelf 0 31] = (az 30 ++ [98] ++ az 30 ++ [98], 0, 1, 0, 0).
+Proof. vm_compute. reflexivity. Qed.
+Example c17_self_string :
+  map (fun n => self_state 1 0 (az n ++ [98]) [XSelfC 0; XSelf 1 2]) [14; 15] =
+  [(az 14 ++ [98] ++ az 14 ++ [98] ++ [97; 97], 0, 64, 0, 0); (az 15 ++ [98] ++ az 15 ++ [98] ++ [97; 97], 0, 64, 0, 0)].
+Proof. vm_compute. reflexivity. Qed.
+Example c17_self_spilling_array : self_state 3 8 [] [XOp (OBytes [97;98;99;100;101]); XSelf 1 3] = ([97;98;99;100;101;98;99;100], 0, 65, 0, 0).
+Proof. vm_compute. reflexivity. Qed.
+Example c17_self_fixed_cut : self_state 2 8 [] [XOp (OBytes [97;98;99;100;101]); XSelf 0 5; XSelfC 2] = ([97;98;99;100;101;97;98], 0, 128, 1, 0).
+Proof. vm_compute. reflexivity. Qed.
+(* the hypotheses of c17_self_append are met by a state in the middle of a history, with a proper slice *)
+Example c17_self_hyps_nontrivial :
+  let ops := [OBytes [97;98;99]; OFormat [120] (Some [55]); OFill 2 46] in
+  Forall ok_op ops /\ c_text (reach 3 4 [] ops) = [97;98;99;120;55;46;46] /\ slice (c_text (reach 3 4 [] ops)) 2 4 = [99;120;55;46] /\
+  c_text (snd (step (reach 3 4 [] ops) (resolve (reach 3 4 [] ops) (XSelf 2 4)))) = [97;98;99;120;55;46;46;99;120;55;46].
+Proof. cbv zeta. split; [repeat constructor; cbn; lia | repeat split; vm_compute; reflexivity]. Qed.
+
+(* offsets / lengths outside the text are clamped to it (the harness clamps in the same way before it forms the pointer) *)
+Example c17_self_clamped : self_state 1 0 [97;98] [XSelf (-1) 1099511627776; XSelf 5 2; XSelfC 2; XSelf 1 (-3)] = ([97;98;97;98;97;98], 0, 64, 0, 0).
+Proof. vm_compute. reflexivity. Qed.
